@@ -320,6 +320,48 @@ def check(repo: Repo, run: Run) -> None:
                     )
     run.floor("C01.M5", n5, 24)
 
+    # M7 ---------------------------------------------------------------
+    # double division by a zero divisor follows IEEE-754: x / (+-0.0) = +-inf with the sign sgn(x)*sgn(0) for every
+    # non-zero, non-NaN x (infinite dividends included); 0/0 and NaN/0 are NaN.  Decided by evaluating the method over
+    # value classes x signs (the sign of a NaN is unspecified, so a result sign taken from a NaN is reported).
+    from ..core.absval import FV, IeeeEval, IeeeTop
+
+    impl = impls["_/_"]
+    n7 = 0
+    if impl.kind == "operator":
+        for dunder, reflected in ((impl.direct, False), (impl.reflected, True)):
+            if not dunder:
+                continue
+            c = matrix.cell(repo, "DoubleType", dunder)
+            if not c.is_repo:
+                continue
+            fn = c.nnode
+            params = [a.arg for a in fn.args.args]
+            if len(params) != 2:
+                continue
+            bad, inconc = [], None
+            dividends = [FV("zero", 1), FV("zero", -1), FV("fin", 1), FV("fin", -1), FV("inf", 1), FV("inf", -1), FV("nan", None)]
+            for x in dividends:
+                for zs in (1, -1):
+                    z = FV("zero", zs)
+                    env = {params[0]: z if reflected else x, params[1]: x if reflected else z}
+                    try:
+                        got = IeeeEval(fn, env).run()
+                    except IeeeTop as ex:
+                        inconc = str(ex)
+                        break
+                    want = FV("nan", None) if x.cls in ("zero", "nan") else FV("inf", x.sign * zs)
+                    n7 += 1
+                    if (got.cls, got.sign if got.cls != "nan" else None) != (want.cls, want.sign):
+                        bad.append(f"{x!r} / {z!r} gives {got!r}, IEEE-754 says {want!r}" + (" (the sign is taken from a NaN: unspecified)" if got.cls == "inf" and got.sign is None else ""))
+                if inconc:
+                    break
+            if inconc:
+                run.inconclusive("C01.M7", f"DoubleType.{dunder}", f"zero-divisor branch outside the evaluated subset: {inconc}")
+            else:
+                run.ob("C01.M7", f"DoubleType.{dunder}|zero divisor", not bad,
+                       f"DoubleType.{dunder}: " + ("x / +-0.0 is +-inf with sign sgn(x)*sgn(0), 0/0 and NaN/0 are NaN, for all 14 class x sign cases" if not bad else "; ".join(bad[:2])), ct.loc(c.node))
+
     # M6 ---------------------------------------------------------------
     # a range-checked operator may only produce the *final* result: an intermediate that goes through the
     # class's own checked operators (self / other, other * q, ...) is rejected when it leaves the range even
